@@ -247,6 +247,13 @@ pub(crate) fn stub_session_handle_rx<const N: usize, const D: usize>(_s: &mut Se
     // any response kind Session::handle_rx's contract allows
     match tape::stub_u8() % 4 { 0 => Response::NoUpdate, 1 => Response::DownlinkReceived(tape::stub_u8() as u32), 2 => Response::SessionExpired, _ => Response::NoAck }
 }
+/// contract-stub of Otaa::handle_rx (its contract: dev_otaa.rs) for the hand-off harness: a JoinAccept may or may not be
+/// accepted.  Mac::handle_rxc must not reach it at all; the stub only keeps real AES/CMAC out of the harness.
+pub(crate) static mut OTAA_RX_CALLS: u8 = 0;
+pub(crate) fn stub_otaa_handle_rx<const N: usize>(_o: &mut otaa::Otaa, _region: &mut region::Configuration, _configuration: &mut Configuration, _rx: &mut RadioBuffer<N>) -> Option<Session> {
+    unsafe { OTAA_RX_CALLS += 1; }
+    if tape::stub_bool() { Some(any_joined_session()) } else { None }
+}
 fn mac_rx_handoff(class_c: bool) {
     tape::init();
     let joined = tape::boolean();
@@ -273,6 +280,7 @@ fn mac_rx_handoff(class_c: bool) {
                 assert!(r.is_err() && h.0 == 0 && m.configuration == old_cfg && !m.is_joined(), "C07 no session: a Class C frame changes nothing");
                 // C04 (modular soundness): the front-ends' conversions of a Class C response (ListenResponse::from, the discarded
                 // between_windows result inside join()) have panic arms for join responses; they rely on this
+                assert!(unsafe { OTAA_RX_CALLS } == 0, "C04/C07 a frame heard on RXC is never treated as a JoinAccept");
                 assert!(matches!(m.state, State::Otaa(_)) == otaa, "C04/C07 a frame heard on RXC while an OTAA join is in flight neither completes nor aborts the join: Mac::handle_rxc answers NotJoined and produces no join response");
             }
             kani::cover!(otaa, "verif-maybe: join in flight");
@@ -297,5 +305,6 @@ fn c07_mac_handle_rx_handoff() { mac_rx_handoff(false) }
 // @verif props=C04,C07,C10 obligation=Mac::handle_rxc.handoff label=proved-complete tier=quick bound="joined (any session), unjoined, or OTAA join in flight; Session::handle_rx contract-stubbed"
 #[kani::proof]
 #[kani::stub(crate::mac::session::Session::handle_rx, stub_session_handle_rx)]
+#[kani::stub(crate::mac::otaa::Otaa::handle_rx, stub_otaa_handle_rx)]
 #[kani::unwind(18)]
 fn c07_mac_handle_rxc_handoff() { mac_rx_handoff(true) }
